@@ -19,6 +19,7 @@ import (
 	"context"
 	"errors"
 	"fmt"
+	"io"
 	"net/http"
 	"runtime"
 	"sort"
@@ -276,13 +277,20 @@ func doAction(w http.ResponseWriter, r *http.Request, a []any) (ack hack, stop b
 		if f, ok := w.(http.Flusher); ok {
 			f.Flush()
 		}
-	case "w":
-		bs := a[1].([]any)
-		p := make([]byte, len(bs))
-		for i, b := range bs {
-			p[i] = byte(num(b))
+	case "w", "ws", "printf":
+		// the three ways a handler usually writes: w.Write, io.WriteString (probes the writer
+		// for io.StringWriter), fmt.Fprintf
+		p := toBytes(a[1])
+		var n int
+		var err error
+		switch a[0].(string) {
+		case "w":
+			n, err = w.Write(p)
+		case "ws":
+			n, err = io.WriteString(w, string(p))
+		default:
+			n, err = fmt.Fprintf(w, "%s", p)
 		}
-		n, err := w.Write(p)
 		switch {
 		case err == nil:
 			return hack{obs: []any{"wok", n}}, false
@@ -302,6 +310,61 @@ func doAction(w http.ResponseWriter, r *http.Request, a []any) (ack hack, stop b
 		panic(pv(num(a[1])))
 	}
 	return hack{obs: []any{"none"}}, false
+}
+
+func toBytes(v any) []byte {
+	bs := v.([]any)
+	p := make([]byte, len(bs))
+	for i, b := range bs {
+		p[i] = byte(num(b))
+	}
+	return p
+}
+
+// gatedReader is a source the controller can stall: every Read that delivers a chunk first
+// waits for the controller's release, ignoring the request context; it has no WriteTo, so
+// io.Copy(w, src) probes the WRITER for io.ReaderFrom.  The result of writing chunk j is
+// reported when the copy asks for chunk j+1 (or when it gives up).
+type gatedReader struct {
+	chunks [][]byte
+	i      int
+	gate   func()
+	ack    func(hack)
+}
+
+func (g *gatedReader) Read(p []byte) (int, error) {
+	if g.i > 0 && g.i <= len(g.chunks) {
+		g.ack(hack{obs: []any{"wok", len(g.chunks[g.i-1])}})
+	}
+	if g.i >= len(g.chunks) {
+		g.i = len(g.chunks) + 1
+		return 0, io.EOF
+	}
+	g.gate()
+	n := copy(p, g.chunks[g.i])
+	g.i++
+	return n, nil
+}
+
+// doCopy: io.Copy(w, stalled source).  One gate and one report per chunk that the copy got
+// to; the copy gives up at the first refused chunk (the remaining chunks are never read).
+func doCopy(w http.ResponseWriter, a []any, gate func(), ack func(hack)) {
+	g := &gatedReader{gate: gate, ack: ack}
+	for _, c := range a[1].([]any) {
+		g.chunks = append(g.chunks, toBytes(c))
+	}
+	_, err := io.Copy(w, g)
+	if err == nil {
+		return
+	}
+	if g.i == 0 {
+		g.gate() // refused before the first Read: keep the controller's lock step
+	}
+	if errors.Is(err, http.ErrHandlerTimeout) {
+		ack(hack{obs: []any{"wto"}, wto: true})
+	} else {
+		ack(hack{obs: []any{"werr"}})
+	}
 }
 
 const waitS = 2 * time.Second
@@ -404,7 +467,7 @@ func runSeqCore(c SeqCase, build func(work http.HandlerFunc) (http.Handler, func
 	tA := time.Now()
 	reqs := make([]*seqReq, len(c.Reqs))
 	for i, in := range c.Reqs {
-		q := &seqReq{in: in, gate: make(chan hcmd), acks: make(chan hack, len(in.Script)+4),
+		q := &seqReq{in: in, gate: make(chan hcmd), acks: make(chan hack, 4*len(in.Script)+16),
 			sRet: make(chan struct{}), hStarted: make(chan struct{})}
 		var cancelShape, releaseShape func()
 		q.parent, cancelShape, releaseShape = mkParent(in.PShape, tA, in.ParentNs)
@@ -433,6 +496,10 @@ func runSeqCore(c SeqCase, build func(work http.HandlerFunc) (http.Handler, func
 			}
 		}()
 		for _, a := range q.in.Script {
+			if a[0].(string) == "copy" {
+				doCopy(w, a, func() { <-q.gate }, func(k hack) { q.acks <- k })
+				continue
+			}
 			<-q.gate
 			ack, stop := doAction(w, r, a)
 			q.acks <- ack
